@@ -24,8 +24,29 @@ for m in sorted(glob.glob('/verif/seeded/*/meta.json')):
     res = ("yes — " + "; ".join(j.get('violation_classes', [])[:2])) if j.get('caught') else "NO (see note)"
     if j.get('note'): res += " — " + j['note'][:200]
     t14.append(f"| {n} | {j['property']} | {needs} | {res[:420]} |")
+man = json.load(open('/verif/MANIFEST.json'))
+t11 = ["| property | spec modules | last evidence (tier, TLC states, scenarios replayed / traces validated, distinct non-trivial, known-finding classes hit) | seeded changes caught |", "|---|---|---|---|"]
+mods = {"C01": "Lattice, BoolOps, Trace_BoolOps, CurvedOps", "C02": "Lattice, BoolOps, CurvedOps", "C03": "Curves, Trace_Curves", "C04": "Stroke",
+        "C05": "Dash, Trace_Dash", "C06": "Query", "C07": "Mat, Transform", "C08": "Bounds", "C09": "Measure", "C10": "Builder, Trace_Builder",
+        "C11": "PathText", "C12": "GState, Trace_GState", "C13": "PDFDoc, Trace_PDFDoc", "C14": "Raster", "C15": "Mat, Context, Trace_Context",
+        "C16": "KnuthPlass, Layout, Trace_Layout", "C17": "KnuthPlass, Trace_KnuthPlass", "C18": "FontEmbed, Trace_FontEmbed", "C19": "SVGDoc",
+        "C20": "Pools, PoolsCounter, Trace_Pools"}
+seeded = {}
+for m in glob.glob('/verif/seeded/*/meta.json'):
+    j = json.load(open(m)); seeded.setdefault(j['property'], []).append(bool(j.get('caught')))
+for c in man['checks']:
+    i = c['property_id']; ev = ''
+    try:
+        e = json.load(open(f'/verif/evidence/{i}.json')); cv = e['coverage']
+        ev = f"{e['tier']}: {cv.get('states', 0):,} states, {cv.get('traces_validated_against_impl', 0):,} replayed/validated, {cv.get('distinct_nontrivial', 0):,} non-trivial, {len(cv.get('known_finding_hits', {}))} known classes, {e['wall_s']:.0f} s"
+    except Exception as x:
+        ev = '(no evidence file yet)'
+    sd = seeded.get(i, [])
+    t11.append(f"| {i} | {mods.get(i, '')} | {ev} | {sum(sd)}/{len(sd)} |" if sd else f"| {i} | {mods.get(i, '')} | {ev} | – |")
+for na in man.get('not_applicable', []):
+    t11.append(f"| {na['property_id']} | {mods.get(na['property_id'], '')} | not claimed: {na['reason'][:120]} | – |")
 s = open('/verif/DESIGN.md').read()
-for tag, rows in (('fixes', t13), ('known', t13k), ('seeded', t14)):
+for tag, rows in (('status', t11), ('fixes', t13), ('known', t13k), ('seeded', t14)):
     a, b = f"<!-- GEN:{tag} -->", f"<!-- /GEN:{tag} -->"
     if a in s:
         s = s[:s.index(a) + len(a)] + "\n" + "\n".join(rows) + "\n" + s[s.index(b):]
